@@ -409,4 +409,212 @@ theorem hmac_outs_congr : ∀ (post : List (Call RngOp)) (a b : C03.HmacGenSt), 
         simp only [c1]
         rw [ih _ _ ia ib (HEqv_of_GEqv c2)]
 
+/-! ### brngCTR on zero-filled buffers is the skeleton -/
+
+/-- the part of `brng_ctr_st` that drives generation: the memory `s ‖ r` and the keyed hash state -/
+abbrev CCore := Bytes × C03.Belt.HashSt
+
+/-- one block with the additional input `X = 0^256` -/
+def nxC (wb : Nat) (c : CCore) : CCore × Bytes :=
+  (((C03.ctrNext wb ⟨c.1, [], 0, c.2⟩ [C03.zeros 32]).1.mem, c.2), (C03.ctrNext wb ⟨c.1, [], 0, c.2⟩ [C03.zeros 32]).2)
+
+theorem nxC_len (wb : Nat) (c : CCore) : (nxC wb c).2.length = 32 := C03.Belt.hashStepG_length _
+
+def toGc (st : C03.CtrSt) : G CCore := ⟨(st.mem, st.keySt), st.block, st.reserved⟩
+def ofGc (g : G CCore) : C03.CtrSt := ⟨g.core.1, g.block, g.reserved, g.core.2⟩
+
+theorem ofGc_toGc (st : C03.CtrSt) : ofGc (toGc st) = st := by cases st; rfl
+
+theorem ctrNext_zeros (wb : Nat) (g : G CCore) :
+    C03.ctrNext wb (ofGc g) [C03.zeros 32] = (ofGc ⟨(nxC wb g.core).1, g.block, g.reserved⟩, (nxC wb g.core).2) := rfl
+
+theorem zeros_append (a b : Nat) : C03.zeros a ++ C03.zeros b = C03.zeros (a + b) := by
+  simp [C03.zeros]
+
+/-- a partial request feeds `X` as `0^count` then `0^(32-count)`: the same hash input (needs `filled < 32` of the
+keyed hash state, which `beltHashStepH` maintains) -/
+theorem ctrNext_partial (wb : Nat) (st : C03.CtrSt) (hw : st.keySt.WF) (count : Nat) (hc : count ≤ 32) :
+    C03.ctrNext wb st [C03.zeros count, C03.zeros (32 - count)] = C03.ctrNext wb st [C03.zeros 32] := by
+  have w1 := C03.Belt.hashStepH_WF st.s st.keySt hw
+  have e : C03.zeros count ++ C03.zeros (32 - count) = C03.zeros 32 := by
+    rw [zeros_append]; congr 1; omega
+  simp only [C03.ctrNext, List.foldl_cons, List.foldl_nil, C03.Belt.hashStepH_append _ w1, e]
+
+theorem zeros_take (n c : Nat) (h : n ≤ c) : (C03.zeros c).take n = C03.zeros n := by
+  simp only [C03.zeros, List.take_replicate]; congr 1; omega
+theorem zeros_drop (n c : Nat) : (C03.zeros c).drop n = C03.zeros (c - n) := by
+  simp only [C03.zeros, List.drop_replicate]
+theorem zeros_length (c : Nat) : (C03.zeros c).length = c := by simp [C03.zeros]
+
+theorem ctrFull_zeros (wb : Nat) : ∀ (n c : Nat), c ≤ n → ∀ g : G CCore,
+    C03.ctrFull wb (ofGc g) (C03.zeros c) =
+      (ofGc ⟨(gFull (nxC wb) g.core (c / 32)).1, g.block, g.reserved⟩, C03.zeros (c % 32),
+       (gFull (nxC wb) g.core (c / 32)).2) := by
+  intro n
+  induction n with
+  | zero =>
+    intro c hc g
+    have : c = 0 := by omega
+    subst this
+    rw [C03.ctrFull]
+    simp [zeros_length, gFull]
+  | succ n ih =>
+    intro c hc g
+    rw [C03.ctrFull]
+    by_cases h : 32 ≤ c
+    · have e1 : c / 32 = (c - 32) / 32 + 1 := by omega
+      have e2 : c % 32 = (c - 32) % 32 := by omega
+      simp only [zeros_length, h, dite_true, zeros_take 32 c h, zeros_drop, ctrNext_zeros, ih (c - 32) (by omega), e1,
+        e2, gFull]
+    · have e1 : c / 32 = 0 := by omega
+      have e2 : c % 32 = c := by omega
+      simp only [zeros_length, h, dite_false, e1, e2, gFull]
+
+/-- the keyed hash state is never changed by the skeleton -/
+theorem gFull_key (wb : Nat) (n : Nat) : ∀ c : CCore, (gFull (nxC wb) c n).1.2 = c.2 := by
+  induction n with
+  | zero => intro c; rfl
+  | succ n ih => intro c; simp only [gFull, ih]; rfl
+
+theorem ctrGen_zeros (wb : Nat) (g : G CCore) (hw : g.core.2.WF) (c : Nat) :
+    C03.ctrGen wb (ofGc g) (C03.zeros c) = (ofGc (gGen (nxC wb) g c).1, (gGen (nxC wb) g c).2) := by
+  simp only [C03.ctrGen, ctrFull_zeros wb c c (Nat.le_refl _) g, zeros_length, gGen]
+  by_cases h : c % 32 = 0
+  · simp only [h, ne_eq, not_true_eq_false, if_false]
+  · simp only [h, ne_eq, not_false_eq_true, if_true]
+    rw [ctrNext_partial wb _ (by show (gFull (nxC wb) g.core (c / 32)).1.2.WF; rw [gFull_key]; exact hw) (c % 32)
+      (by omega), ctrNext_zeros]
+    rfl
+
+/-- `brngCTRStepR` on a zero-filled buffer of `c` octets is the skeleton over `nxC` -/
+theorem ctrStepR_zeros (wb : Nat) (g : G CCore) (hw : g.core.2.WF) (c : Nat) :
+    C03.ctrStepR wb (C03.zeros c) (ofGc g) = (ofGc (gStep (nxC wb) c g).1, (gStep (nxC wb) c g).2) := by
+  have e0 : ({ ofGc g with reserved := 0 } : C03.CtrSt) = ofGc ⟨g.core, g.block, 0⟩ := rfl
+  unfold C03.ctrStepR gStep
+  rw [e0, zeros_drop, ctrGen_zeros wb g hw, ctrGen_zeros wb ⟨g.core, g.block, 0⟩ hw]
+  have hr : (ofGc g).reserved = g.reserved := rfl
+  by_cases h0 : g.reserved = 0
+  · simp only [hr, h0, ne_eq, not_true_eq_false, if_false]
+  · simp only [hr, h0, ne_eq, not_false_eq_true, if_true, zeros_length]
+    by_cases h : g.reserved ≥ c
+    · simp only [h, if_true]; rfl
+    · simp only [h, if_false]; rfl
+
+theorem zeroBufs_cons (c : Bytes) (cs : List Bytes) (h : zeroBufs (c :: cs)) :
+    c = C03.zeros c.length ∧ zeroBufs cs :=
+  ⟨h c (List.mem_cons_self ..), fun d hd => h d (List.mem_cons_of_mem _ hd)⟩
+
+theorem zeroBufs_flatten : ∀ cs : List Bytes, zeroBufs cs → cs.flatten = C03.zeros cs.flatten.length
+  | [], _ => rfl
+  | c :: cs, h => by
+    obtain ⟨h1, h2⟩ := zeroBufs_cons c cs h
+    have ih := zeroBufs_flatten cs h2
+    rw [List.flatten_cons, List.length_append, ← zeros_append, ← h1, ← ih]
+
+/-- invariant of `brng_ctr_st` (as far as chunking is concerned) -/
+def CInv (st : C03.CtrSt) : Prop := st.reserved ≤ 32 ∧ st.block.length = 32
+
+/-- equality up to the already returned part of `block` -/
+def CEqv (a b : C03.CtrSt) : Prop :=
+  a.mem = b.mem ∧ a.keySt = b.keySt ∧ a.reserved = b.reserved ∧
+    a.block.drop (32 - a.reserved) = b.block.drop (32 - b.reserved)
+
+theorem CEqv_of_GEqv {g h : G CCore} (e : GEqv g h) : CEqv (ofGc g) (ofGc h) := by
+  obtain ⟨e1, e2, e3⟩ := e
+  exact ⟨congrArg (·.1) e1, congrArg (·.2) e1, e2, e3⟩
+
+theorem GEqv_of_CEqv {a b : C03.CtrSt} (e : CEqv a b) : GEqv (toGc a) (toGc b) := by
+  obtain ⟨e1, e2, e3, e4⟩ := e
+  refine ⟨?_, e3, e4⟩
+  show (a.mem, a.keySt) = (b.mem, b.keySt)
+  rw [e1, e2]
+
+theorem gGen_key (wb : Nat) (g : G CCore) (c : Nat) : (gGen (nxC wb) g c).1.core.2 = g.core.2 := by
+  unfold gGen
+  split
+  · show (nxC wb _).1.2 = _
+    show (gFull (nxC wb) g.core (c / 32)).1.2 = _
+    exact gFull_key wb _ _
+  · exact gFull_key wb _ _
+
+theorem gStep_key (wb : Nat) (g : G CCore) (c : Nat) : (gStep (nxC wb) c g).1.core.2 = g.core.2 := by
+  rw [gStep_decomp]
+  exact gGen_key wb _ _
+
+/-- a session of requests with zero-filled buffers on `brngCtrB` is a run of the skeleton -/
+theorem ctr_run : ∀ (cs : List Bytes), zeroBufs cs → ∀ (g : G CCore), g.core.2.WF →
+    run brngCtrB (ofGc g) (calls RngOp.gen cs) =
+      (ofGc (gRun (nxC wOctets) g (cs.map List.length)).1,
+       (gRun (nxC wOctets) g (cs.map List.length)).2.map Out.data) := by
+  intro cs
+  induction cs with
+  | nil => intro _ g _; rfl
+  | cons c cs ih =>
+    intro hz g hw
+    obtain ⟨h1, h2⟩ := zeroBufs_cons c cs hz
+    have e : run brngCtrB (ofGc g) (calls RngOp.gen (c :: cs)) =
+        ((run brngCtrB (C03.ctrStepR wOctets c (ofGc g)).1 (calls RngOp.gen cs)).1,
+         Out.data (C03.ctrStepR wOctets c (ofGc g)).2 ::
+          (run brngCtrB (C03.ctrStepR wOctets c (ofGc g)).1 (calls RngOp.gen cs)).2) := rfl
+    rw [e]
+    conv => lhs; rw [h1]
+    rw [ctrStepR_zeros wOctets g hw, ih h2 _ (by rw [gStep_key]; exact hw)]
+    rfl
+
+theorem ctr_chunks (st : C03.CtrSt) (hi : CInv st) (hw : st.keySt.WF) (cs : List Bytes) (hz : zeroBufs cs) :
+    dataOf (outs brngCtrB st (calls RngOp.gen cs)) = (C03.ctrStepR wOctets cs.flatten st).2 ∧
+    CEqv (after brngCtrB st (calls RngOp.gen cs)) (C03.ctrStepR wOctets cs.flatten st).1 ∧
+    CInv (after brngCtrB st (calls RngOp.gen cs)) ∧ CInv (C03.ctrStepR wOctets cs.flatten st).1 := by
+  have hg : GInv (toGc st) := hi
+  have hw' : (toGc st).core.2.WF := hw
+  obtain ⟨r1, r2, r3⟩ := gRun_sum (nxC wOctets) (nxC_len wOctets) (cs.map List.length) (toGc st) hg
+  have r4 := gStep_inv (nxC wOctets) (nxC_len wOctets) (cs.map List.length).sum (toGc st) hg
+  simp only [outs, after]
+  rw [zeroBufs_flatten cs hz, ← ofGc_toGc st, ctr_run cs hz _ hw', List.length_flatten,
+    ctrStepR_zeros wOctets _ hw']
+  simp only [dataOf_map_data, r1]
+  exact ⟨trivial, CEqv_of_GEqv r2, r3, r4⟩
+
+/-- every request of the session comes with a zero-filled buffer -/
+def zeroSession (post : List (Call RngOp)) : Prop :=
+  ∀ buf, Call.op (RngOp.gen buf) ∈ post → buf = C03.zeros buf.length
+
+/-- equivalent states answer every later session alike (requests with zero-filled buffers, `brngCTRStepG`,
+relocations) -/
+theorem ctr_outs_congr : ∀ (post : List (Call RngOp)), zeroSession post → ∀ (a b : C03.CtrSt), CInv a → CInv b →
+    a.keySt.WF → CEqv a b → outs brngCtrB a post = outs brngCtrB b post := by
+  intro post
+  induction post with
+  | nil => intros; rfl
+  | cons p post ih =>
+    intro hz a b ha hb hw he
+    have hz' : zeroSession post := fun buf h => hz buf (List.mem_cons_of_mem _ h)
+    cases p with
+    | reloc =>
+      show Out.none :: outs brngCtrB a post = Out.none :: outs brngCtrB b post
+      rw [ih hz' a b ha hb hw he]
+    | op i =>
+      cases i with
+      | get =>
+        show Out.data (C03.ctrStepG a) :: outs brngCtrB a post = Out.data (C03.ctrStepG b) :: outs brngCtrB b post
+        rw [ih hz' a b ha hb hw he]
+        simp only [C03.ctrStepG, C03.CtrSt.s, he.1]
+      | gen buf =>
+        show Out.data (C03.ctrStepR wOctets buf a).2 :: outs brngCtrB (C03.ctrStepR wOctets buf a).1 post =
+          Out.data (C03.ctrStepR wOctets buf b).2 :: outs brngCtrB (C03.ctrStepR wOctets buf b).1 post
+        have hbuf := hz buf (List.mem_cons_self ..)
+        have hwb : b.keySt.WF := he.2.1 ▸ hw
+        obtain ⟨c1, c2⟩ := gStep_congr (nxC wOctets) (toGc a) (toGc b) ha hb (GEqv_of_CEqv he) buf.length
+        have ia : CInv (ofGc (gStep (nxC wOctets) buf.length (toGc a)).1) :=
+          gStep_inv (nxC wOctets) (nxC_len wOctets) buf.length (toGc a) ha
+        have ib : CInv (ofGc (gStep (nxC wOctets) buf.length (toGc b)).1) :=
+          gStep_inv (nxC wOctets) (nxC_len wOctets) buf.length (toGc b) hb
+        have iw : (ofGc (gStep (nxC wOctets) buf.length (toGc a)).1).keySt.WF := by
+          show (gStep (nxC wOctets) buf.length (toGc a)).1.core.2.WF
+          rw [gStep_key]; exact hw
+        rw [hbuf, ← ofGc_toGc a, ← ofGc_toGc b, ctrStepR_zeros wOctets _ hw,
+          ctrStepR_zeros wOctets _ hwb]
+        simp only [c1]
+        rw [ih hz' _ _ ia ib iw (CEqv_of_GEqv c2)]
+
 end Bee2V.C10.Brng
